@@ -18,8 +18,17 @@ from . import seeds
 from .minimize import minimize
 
 VERIF = os.path.dirname(os.path.dirname(os.path.abspath(__file__)))
-REPLAYS = os.path.join(VERIF, "replays")
-EVIDENCE = os.path.join(VERIF, "evidence")
+REPLAYS = os.environ.get("VERIF_REPLAY_DIR") or os.path.join(VERIF, "replays")
+EVIDENCE = os.environ.get("VERIF_EVIDENCE_DIR") or os.path.join(VERIF, "evidence")
+
+
+def child_pythonpath():
+    """PYTHONPATH for child interpreters: /verif, preceded by the repository copy under test when the selftest
+    points the checks at a scratch copy (VERIF_REPO); /repo itself is found through the venv's egg-link."""
+    repo = os.environ.get("VERIF_REPO")
+    if repo and os.path.realpath(repo) != os.path.realpath("/repo"):
+        return repo + os.pathsep + VERIF
+    return VERIF
 FINDINGS = os.path.join(VERIF, "known_findings.json")
 
 REAL_STUB = {
@@ -208,8 +217,8 @@ def validate_evidence(ev):
 def run_replay_subprocess(path):
     """Replay in a fresh interpreter; returns (reproduced, output)."""
     env = dict(os.environ)
-    env["PYTHONHASHSEED"] = "0"
-    env["PYTHONPATH"] = VERIF
+    env["PYTHONHASHSEED"] = os.environ.get("VERIF_HASHSEED", "0")
+    env["PYTHONPATH"] = child_pythonpath()
     try:
         p = subprocess.run([sys.executable, os.path.join(VERIF, "simx", "main.py"), "--replay", path],
                            capture_output=True, text=True, timeout=600, env=env, cwd=VERIF)
